@@ -65,6 +65,10 @@ def main(argv=None):
         for sc, d in fails:
             problems.append('selftest disagreement on %s: %s' % (json.dumps(sc['steps'])[:120], d[:300]))
         harness._native.clear()
+    extra_info = {}
+    if hasattr(mod, 'prelude'):
+        for b in mod.prelude(extra_info):
+            problems.append('prelude: ' + b)
     jobs = mod.jobs(tier)
     if a.only:
         jobs = [j for j in jobs if fnmatch.fnmatch(j.name, a.only)]
@@ -143,6 +147,7 @@ def main(argv=None):
             'native_replays_of_passing_paths': agg['validated'],
             'mir_dump': {'bodies': info['mir_bodies'], 'seconds': round(info['mir_seconds'], 1), 'cached': info['mir_cached']},
             'known_findings_reproduced': agg['known_hits'],
+            'prelude': extra_info,
             'problems': problems,
         },
         'assumptions': [
